@@ -139,7 +139,36 @@ fn one_case(rep: &mut Report, rng: &mut Rng, idx: u64, info: &Value) {
     match which {
         0..=5 => {
             let o = FreeOpts { allow_empty_distinguishing: allow_empty, ..Default::default() };
-            let tx = g::free_tx(rng, (idx / 16) as usize % 6, &o);
+            let mut tx = g::free_tx(rng, (idx / 16) as usize % 6, &o);
+            // now and then a long element vector (> 1024 and > 4096 elements)
+            if idx % 97 == 16 {
+                let n = *rng.pick(&[1023usize, 1024, 1025, 1500, 4097]);
+                match &mut tx {
+                    Transaction::Script(t) => {
+                        use fuel_tx::field::Witnesses;
+                        t.witnesses_mut().extend((0..n).map(|i| vec![i as u8; i % 3].into()));
+                    }
+                    Transaction::Create(t) => {
+                        let mut s: Vec<fuel_tx::StorageSlot> = (0..n).map(|_| fuel_tx::StorageSlot::new(fuel_types::Bytes32::new(rng.arr()), fuel_types::Bytes32::new(rng.arr()))).collect();
+                        s.sort();
+                        s.dedup();
+                        *fuel_tx::field::StorageSlots::storage_slots_mut(t).as_mut() = s;
+                    }
+                    Transaction::Upload(t) => {
+                        fuel_tx::field::ProofSet::proof_set_mut(t).extend((0..n).map(|_| g::bytes32(rng)));
+                    }
+                    Transaction::Upgrade(t) => {
+                        use fuel_tx::field::Outputs;
+                        t.outputs_mut().extend((0..n).map(|i| g::output(rng, i)));
+                    }
+                    Transaction::Blob(t) => {
+                        use fuel_tx::field::Inputs;
+                        t.inputs_mut().extend((0..n).map(|i| g::input(rng, i % 7, 12, false)));
+                    }
+                    Transaction::Mint(_) => {}
+                }
+                rep.count("long_vector_transactions");
+            }
             let inex = tx_inexpressible(&tx);
             let c = Case { ty: "Transaction", variant: g::tx_kind_name(&tx).into(), inexpressible: inex.clone(), replay: replay("Transaction", json!(guarded(|| hx(tx.to_bytes())).unwrap_or_default())) };
             rep.class(tx_class(&tx));
